@@ -41,9 +41,12 @@ def variants(proto, thorough):
     return v
 
 
-def run_objarray(chk, wd, binp, thorough):
+def run_objarray(chk, wd, binp, thorough, protos=("none", "A"), twins=None):
+    """twins: restrict the replayed variants to these storage twins (C04 reuses the module for the storage transitions)"""
     tours = 0
     for proto, pname in [("none", "NoProto"), ("A", "ProtoA")]:
+        if proto not in protos:
+            continue
         gwd = os.path.join(wd, "arr-" + proto)
         os.makedirs(gwd)
         vias = ["obj", "refl", "sloppy", "strict"] if thorough else ["refl", "strict"] if proto == "none" else ["refl", "sloppy"]
@@ -54,6 +57,8 @@ def run_objarray(chk, wd, binp, thorough):
         chk.add("transitions", st["transitions"])
         jobs = []
         for n, (c, twin, base) in enumerate(variants(proto, thorough)):
+            if twins and twin not in twins:
+                continue
             pre = os.path.join(gwd, "prelude-%d.js" % n)
             open(pre, "w").write("var CFG = %s;\n" % json.dumps({"c": c, "twin": twin, "proto": proto, "base": base}))
             share = None if thorough else (seed() + n, 4 if twin == "s2dlive" else 16)
@@ -118,5 +123,5 @@ def replay(path):
     if got["res"] == m.get("want_res") and got["obs"] == m.get("want_obs"):
         print("replay: agrees with the specification now")
         return 0
-    print("VIOLATION property=C07 replay=%s" % path)
+    print("VIOLATION property=%s replay=%s" % (d.get("property", "C07"), path))
     return 1
